@@ -34,6 +34,7 @@ class World(object):
         self.net = Net(self.sim, self.server, scenario.get('net', {}))
         self.rand = make_rng('rand', scenario.get('rand_seed', 0))
         self.calls = []
+        self.last_api_step = 0
         self.prop_id = scenario.get('_prop', 'C??')
         self.extra = []      # [(obj, attr, value)] patched for the run
 
@@ -41,6 +42,7 @@ class World(object):
         """A public-API call made by a harness thread; logged with seqs."""
         sim = self.sim
         sim.yield_point(40)
+        self.last_api_step = sim.steps
         inv = sim.log('call', name)
         try:
             v = fn(*args, **kw)
@@ -52,6 +54,7 @@ class World(object):
             self.calls.append(r)
             return r
         r = ApiResult(name, True, v, None, inv, None)
+        self.last_api_step = sim.steps
         r.ret = sim.log('ret', (name, 'ok'))
         self.calls.append(r)
         return r
@@ -61,8 +64,20 @@ class World(object):
         sim = self.sim
         sim.block(lambda: False, us, reason='sleep')
 
-    def wait_until(self, pred, timeout_us=None, reason='wait'):
-        return self.sim.block(pred, timeout_us, reason=reason, poll=True)
+    def wait_until(self, pred, timeout_us=None, reason='wait', budget=False):
+        """Patient harness wait for something that ought to happen: never
+        expires on the virtual clock; gives up (False) when the system is
+        quiescent or, if a budget is given (True = max_steps/3, or an int),
+        after that many scheduler steps.  A run that never gets there ends at
+        the step cap.  timeout_us is documentation only."""
+        return self.sim.block(pred, None, reason=reason, poll=True,
+                              patient=True, budget=budget)
+
+    def wait_for(self, pred, timeout_us, reason='wait-for'):
+        """Impatient wait: until pred or timeout_us of VIRTUAL time.  For
+        workload pacing only - never for an oracle."""
+        return self.sim.block(pred, timeout_us, reason=reason, poll=True,
+                              patient=False)
 
     def run(self, build, wall_timeout=30.0):
         seams.import_minecraft()
